@@ -10,6 +10,7 @@ import (
 func CoordAnyBits() *rapid.Generator[float64] {
 	special := []float64{0, math.Copysign(0, -1), 1, -1, math.Inf(1), math.Inf(-1), math.NaN(),
 		math.Float64frombits(0x7ff8000000000001), math.Float64frombits(0xfff0000000000001), // NaN payloads
+		math.Float64frombits(0x7ff8000000000000), math.Float64frombits(0xfff8000000000000), // the canonical quiet NaNs other writers use (POINT EMPTY)
 		math.SmallestNonzeroFloat64, -math.SmallestNonzeroFloat64, math.MaxFloat64, -math.MaxFloat64,
 		math.Float64frombits(0x000fffffffffffff), 0.1, 1e300, 1e-300, 123456.789}
 	return rapid.OneOf(
@@ -97,6 +98,22 @@ func (o GeomOpts) pts(t *rapid.T, min int) []P2 {
 	out := make([]P2, n)
 	for i := range out {
 		out[i] = MkP(o.Coord.Draw(t, "x"), o.Coord.Draw(t, "y"))
+	}
+	// a vertex whose two coordinates are the same drawn value (both the same NaN pattern, both -0, both MaxFloat, ...)
+	if n >= 1 && rapid.IntRange(0, 11).Draw(t, "twincoord") == 5 {
+		v := o.Coord.Draw(t, "twinv")
+		out[rapid.IntRange(0, n-1).Draw(t, "twinat")] = MkP(v, v)
+	}
+	// an axis-parallel rectangle as a closed 5-vertex array, first edge along y or along x: vertices share coordinates bit
+	// for bit with their neighbours
+	if n >= 5 && !o.ExactGrid && rapid.IntRange(0, 9).Draw(t, "rect") == 4 {
+		x0, y0, x1, y1 := float64(out[0][0]), float64(out[0][1]), float64(out[2][0]), float64(out[2][1])
+		if rapid.Bool().Draw(t, "rectyfirst") {
+			out = []P2{MkP(x0, y0), MkP(x0, y1), MkP(x1, y1), MkP(x1, y0), MkP(x0, y0)}
+		} else {
+			out = []P2{MkP(x0, y0), MkP(x1, y0), MkP(x1, y1), MkP(x0, y1), MkP(x0, y0)}
+		}
+		return out
 	}
 	// closed and NEARLY closed / nearly repeated vertices: one vertex becomes a copy of another (the last of the first:
 	// a closed ring), or a copy moved by one or a few hundred ulps, or by the sign of a zero
